@@ -56,6 +56,11 @@ type c32Gen struct {
 	t   *rapid.T
 	r   *c32Req
 	dis []string // measurements the caller may NOT write
+	// intNames: routing-like names that carry an integer in this request. One
+	// type per name per request: two batches of one measurement that disagree on
+	// the type of a '_'-prefixed column crash the flush (mergeBatches type
+	// assertion) - that is property C04's subject, not this one's.
+	intNames map[string]bool
 	odb []string // databases other than the allowed one
 }
 
@@ -102,7 +107,17 @@ func (g *c32Gen) routing(owner string) []c32KV {
 		}
 		used[name] = true
 		var val any
-		switch c32Pick(g.t, "rval", "otherdb", "secret", "denied", "int", "alloweddb", "allowedm") {
+		kind := c32Pick(g.t, "rval", "otherdb", "secret", "denied", "int", "alloweddb", "allowedm")
+		if isInt, seen := g.intNames[name]; seen {
+			if isInt {
+				kind = "int"
+			} else if kind == "int" {
+				kind = "secret"
+			}
+		} else {
+			g.intNames[name] = kind == "int"
+		}
+		switch kind {
 		case "otherdb":
 			val = g.otherDB()
 		case "secret":
@@ -306,7 +321,7 @@ func (g *c32Gen) parquetBody() ([]byte, string) {
 // c32GenReq draws one request.
 func c32GenReq(t *rapid.T) *c32Req {
 	r := &c32Req{Headers: map[string]string{}, Query: map[string]string{}}
-	g := &c32Gen{t: t, r: r}
+	g := &c32Gen{t: t, r: r, intNames: map[string]bool{}}
 	r.AllowedDB = c32Pick(t, "alloweddb", "default", "dba", "tenant1")
 	for _, d := range c32DBs {
 		if d != r.AllowedDB {
@@ -325,8 +340,16 @@ func c32GenReq(t *rapid.T) *c32Req {
 	}
 	g.dis = append(g.dis, "secret")
 
-	r.Surface = c32Pick(t, "surface", "mp-columnar", "mp-columnar", "mp-row", "mp-batch", "mp-array",
-		"lp-v1", "lp-v2", "lp-simple", "tle-write", "import-csv", "import-parquet", "import-lp", "import-tle")
+	// uniform over the surfaces (rapid.SampledFrom favours the first entries)
+	surfaces := []string{"mp-columnar", "mp-columnar", "mp-row", "mp-batch", "mp-array",
+		"lp-v1", "lp-v2", "lp-simple", "tle-write", "import-csv", "import-parquet", "import-lp", "import-tle"}
+	si := 0
+	for i := 0; i < 8; i++ {
+		if rapid.Bool().Draw(t, "surfacebit") {
+			si |= 1 << i
+		}
+	}
+	r.Surface = surfaces[si*len(surfaces)/256]
 	r.class("surface:" + r.Surface)
 
 	hdrDB, qDB, qBucket := g.dbChoice("hdrdb"), g.dbChoice("qdb"), g.dbChoice("qbucket")
@@ -359,6 +382,30 @@ func c32GenReq(t *rapid.T) *c32Req {
 	if c32Chance(t, "qm", 50) {
 		qM = g.measurement()
 		r.Query["measurement"] = qM
+	}
+
+	if r.Surface == "import-csv" || r.Surface == "import-parquet" {
+		// the CSV/Parquet import preamble rejects: no database, no/invalid
+		// measurement parameter, or a denied write check
+		rejects := first(hdrDB, qDB) != r.AllowedDB || qM == ""
+		if !rejects {
+			rejects = true
+			for _, m := range r.Allowed {
+				if m == qM {
+					rejects = false
+				}
+			}
+		}
+		if rejects {
+			if verifkit.Excluded("C32-import-preamble-rejection-ignored") {
+				verifkit.CountExcluded("C32-import-preamble-rejection-ignored")
+				hdrDB, qM = r.AllowedDB, r.Allowed[0]
+				r.Headers["x-arc-database"], r.Query["measurement"] = hdrDB, qM
+			} else {
+				r.class("import:preamble-rejects")
+				r.NonTrivial = true
+			}
+		}
 	}
 
 	switch r.Surface {
@@ -506,4 +553,18 @@ func TestVerifKF_C32_replica_underscore_measurement(t *testing.T) {
 	msg := c32RunProbe(fx, r)
 	t.Logf("oracle: %s", msg)
 	verifkit.KnownFinding("C32-replica-underscore-key-redirect", strings.Contains(msg, "C32/replica-unchecked-measurement replica-stored=default/secret"), msg)
+}
+
+// The CSV/Parquet import handlers ignore their own preamble's rejection: the
+// 400/403 response is written, then the import carries on with database "" and
+// measurement "" (no write check) and the rows are stored at the storage root.
+func TestVerifKF_C32_import_preamble_rejection_ignored(t *testing.T) {
+	fx := c32NewFixture(t)
+	body := "time,v\n1700000000,1\n"
+	r := &c32Req{Surface: "import-csv", Path: "/api/v1/import/csv", Headers: map[string]string{}, Upload: true,
+		Query: map[string]string{"db": "dbb", "measurement": "cpu"}, Body: []byte(body), BodyTxt: body,
+		AllowedDB: "default", Allowed: []string{"cpu"}, ResolvedDB: "dbb"}
+	msg := c32RunProbe(fx, r)
+	t.Logf("oracle: %s", msg)
+	verifkit.KnownFinding("C32-import-preamble-rejection-ignored", strings.Contains(msg, "C32/writer-wrong-database stored=2023/11") && strings.Contains(msg, "status=403"), msg)
 }
